@@ -823,6 +823,7 @@ fn class_of(m: &Mut) -> String {
             }
         }
         Mut::Havoc(_) => "corrupt-havoc".into(),
+        Mut::Blob { .. } => "corrupt-external".into(),
     }
 }
 
